@@ -7,7 +7,8 @@ import subprocess
 import sys
 
 HERE = os.path.dirname(os.path.dirname(os.path.abspath(__file__)))
-EXTRA = {"C20": ["C09"], "C02": ["C01"], "C04": ["C09"]}
+EXTRA = {"C20": ["C09"], "C02": ["C01"], "C04": ["C09"], "C17-2": ["C16"], "C05-2": ["C09"], "C20-2": ["C06"], "C02-2": [], "C04-2": [],
+         "C16-2": ["C17"], "C06-2": ["C20"]}
 
 
 def sh(cmd, **kw):
@@ -26,7 +27,7 @@ def main():
             continue
         results = {}
         try:
-            for cid in [meta["property"]] + EXTRA.get(meta["property"], []):
+            for cid in [meta["property"]] + EXTRA.get(sid, EXTRA.get(meta["property"], [])):
                 out = sh(f"cd {HERE} && ./check {cid} --tier quick", timeout=3000)
                 viol = [l for l in out.stdout.splitlines() if l.startswith("VIOLATION")]
                 what = [l.strip()[6:] for l in out.stdout.splitlines() if l.strip().startswith("what:")]
